@@ -14,7 +14,7 @@ RULE = (
     "of <= 6 hops, each hop a 301/302/303/307/308 whose Location is absolute / explicit-default-port / upper-case / "
     "scheme-relative / path / relative segment / ../ / ?query; entry point PoolManager | ProxyManager (forwarding + "
     "CONNECT tunnel) | bare HTTPConnectionPool; policy value None | False | int | Retry(redirect=k) | Retry(total=k) | "
-    "Retry(.., raise_on_redirect=False) at request level, pool/manager level, or both; redirect=False; method GET/POST/PUT "
+    "Retry(.., raise_on_redirect=False) at request level, pool/manager level (for a bare pool also as `pool_kwargs` of a manager's connection_from_url), or both; redirect=False; method GET/POST/PUT "
     "with bytes or seekable-file body and content headers; optionally a connection reset, or a 503 with Retry-After: 0, on one or two hops so that the hop is retried). The graph is the reference: Location values are built from "
     "the intended next node, so the sequence of (origin, method, target, body, content headers) the SERVERS saw must be "
     "a prefix of the graph walk, not longer than 1 + budget. Non-trivial = the chain has >= 2 hops and the budget is hit, "
@@ -65,6 +65,8 @@ def run_case(case) -> list[Failure]:
         if case.get(k) is not None:
             redirects.validate_policy(case[k])
     if case.get("body") not in (None, "bytes", "file") or not isinstance(case.get("redirect_kw", True), bool):
+        raise core.InvalidCase
+    if case.get("via_pool_kwargs") and (case["entry"] != "pool" or case.get("mgr_policy") is None):
         raise core.InvalidCase
     if case["entry"] == "pool":
         o0 = graph["nodes"][0]["o"]
@@ -123,7 +125,12 @@ def run_case(case) -> list[Failure]:
             url = run.start_url()
         else:
             o = graph["origins"][graph["nodes"][0]["o"]]
-            obj = urllib3.HTTPConnectionPool(o[1], o[2], **kw_mgr)
+            if case.get("via_pool_kwargs"):
+                # the pool is obtained from a manager and the policy is handed over as a per-pool override
+                mgr0 = urllib3.PoolManager()
+                obj = mgr0.connection_from_url(f"http://{o[1]}:{o[2]}/", pool_kwargs=dict(kw_mgr))
+            else:
+                obj = urllib3.HTTPConnectionPool(o[1], o[2], **kw_mgr)
             url = run.tg[0]
         try:
             result = obj.urlopen(method, url, body=body, headers=hdrs, **kw_req)
@@ -314,8 +321,11 @@ def enum_cases(tier):
                 for place in ("request", "manager"):
                     k += 1
                     hops = [(0, codes[i], ("abs", "path", "absport")[(k + i) % 3], 0) for i in range(n)]
-                    yield {"kind": "redir", "entry": "pool", "graph": chain_graph(hops), "method": ("GET", "POST")[k % 2], "body": (None, "bytes")[k % 2],
-                           "req_policy": pol if place == "request" else None, "mgr_policy": pol if place == "manager" else None, "redirect_kw": True}
+                    c0 = {"kind": "redir", "entry": "pool", "graph": chain_graph(hops), "method": ("GET", "POST")[k % 2], "body": (None, "bytes")[k % 2],
+                          "req_policy": pol if place == "request" else None, "mgr_policy": pol if place == "manager" else None, "redirect_kw": True}
+                    yield c0
+                    if place == "manager":
+                        yield dict(c0, via_pool_kwargs=True)
     # a connection error or a retryable status (503 + Retry-After) on one hop (the request is retried) inside a redirect chain
     for entry in ("pm", "proxy", "pool"):
         for code in (302, 307, 303):
@@ -369,6 +379,8 @@ def _hyp():
         c = {"kind": "redir", "entry": entry, "graph": g, "method": method, "body": None if method in ("GET", "DELETE") else draw(st.sampled_from(["bytes", "file"])),
              "req_policy": draw(pol) if place in ("request", "both") else None, "mgr_policy": draw(pol) if place in ("manager", "both") else None,
              "redirect_kw": draw(st.integers(0, 7)) != 0}
+        if entry == "pool" and c["mgr_policy"] is not None and draw(st.booleans()):
+            c["via_pool_kwargs"] = True
         if method in ("GET", "DELETE") and draw(st.integers(0, 2)) == 0:
             c["faults"] = sorted(set(draw(st.lists(st.integers(0, 4), min_size=1, max_size=2))))
             c["fault_kind"] = draw(st.sampled_from(["reset", "busy"]))
